@@ -26,7 +26,8 @@ Changed(a, b, ownSetDV) ==
 StepClauses ==
     LET prev == T.ev[l-1]
         cur == T.ev[l]
-    IN (IF cur.err # "" THEN {"C08.derive_operation_raised"} ELSE {})
+    \* (whether a decode may raise - an empty design space - is C01's business and is judged there with the semantics)
+    IN (IF cur.err # "" /\ cur.op # "Decode" THEN {"C08.derive_operation_raised"} ELSE {})
        \cup (IF Len(cur.obs) < Len(prev.obs) THEN {"machinery.object_lost"}
              ELSE UNION {Changed(prev.obs[p], cur.obs[p], cur.op = "SetDV" /\ cur.p = p) : p \in DOMAIN prev.obs})
 
